@@ -2,17 +2,20 @@
 from harness import enc
 
 ID = "C05"
-MODULES = ["HeraProofs.Props.C05"]
+MODULES = ["HeraProofs.Props.C05", "HeraProofs.Props.C05b"]
 GENERATED_DEPS = ["Ops.lean", "Tables.lean", "Exec.lean"]
 EXPLANATION = ("Theorems: generic (all patterns, all words, no enumeration) round trips of the pattern matcher and "
                "substituter (Enc.subst_of_match, Enc.match_of_subst), side conditions decided on the regenerated BITV/P "
                "table (length 16, symbols, arity = number of parameters), C05_decode_sound: every word that disassembles "
                "re-assembles (through the regenerated assemble methods, INC/DEC +-1 included) to exactly that word; "
-               "C05_range. The arithmetic HERA table Spec.encode is compared with the real assembler on every valid "
-               "instance (exhaustive), as are decode-completeness and injectivity: the finite domain is enumerated "
-               "completely by the oracle on every run.")
-ASSUMPTIONS = ["the Lean statement 'assemble = Spec.encode' (encode-table) and decode-completeness are established by the exhaustive "
-               "oracle over all 63 505 valid instances and 65 536 words rather than by a theorem (partial: see DESIGN.md C05)"]
+               "C05_range. The HERA table itself (C05b, over Spec.encode / Spec.decode): C05_decode_encode (the word of every "
+               "valid instruction decodes to that instruction), C05_encode_injective (two different instructions never share "
+               "a word, up to the two spellings of a byte operand), C05_encode_lt (every table word is 16 bits). The table is "
+               "tied to the code on every run by complete enumeration: Spec.encode against the real assembler on all 63 505 "
+               "valid instances, Spec.decode against the real disassembler on all 65 536 words.")
+ASSUMPTIONS = ["'the regenerated assemble = Spec.encode' and 'real disassemble = Spec.decode' are established by the exhaustive "
+               "enumeration of all 63 505 valid instances and all 65 536 words on every run (a complete check of a finite "
+               "domain), not by a Lean theorem; the theorems are about the two sides separately"]
 TRUSTED_EXTRA = ["hand model Model/Enc.lean of match_bitvector/substitute_bitvector/disassemble: exhaustive correspondence on all words and instances"]
 
 
